@@ -157,27 +157,21 @@ Theorem C13_count_kmers_partial :
 Proof. exact count_kmers_pinned. Qed.
 Print Assumptions C13_count_kmers_partial.
 
-(* The link between the two verdicts the check evaluates on every generated case (Corr/C13.v).
-   For the property's own input class — a ragged collection of sequences (k_kind = 0: freshly built array,
-   non-contiguous view, one sequence as a 1-d array) — inside the domain (distinct alphabet letters, letters in
-   range, 1 <= k <= w <= 31, total letters >= w): if the implementation's answer equals the model's (model_ok)
-   then it is the property's value (spec_ok).  EVERY window >= 1 (the repaired slice is in /repo), all ten
-   observed operations: k-mers incl. their rendering, minimizers, string match, motif scores (exact, and the
-   real-valued tolerance test), both counts incl. labels, encode/to_string. *)
+(* The link between the two verdicts the check evaluates on every generated case (Corr/C13.v): for EVERY case inside the
+   domain (distinct alphabet letters, letters in range, 1 <= k <= w <= 31, total letters >= w) — a ragged collection
+   (freshly built, non-contiguous view), one sequence as a 1-d array, or equal-length sequences as a dense 2-d array,
+   encoded or not — if the implementation's answer equals the model's (model_ok) then it is the property's value
+   (spec_ok).  Every window >= 1, all ten observed operations: k-mers incl. their rendering, minimizers, string match,
+   motif scores (exact, and the real-valued tolerance test), counts flat / per row / weighted / on rows of more than
+   10^6 letters incl. labels, encode/to_string.  (Full strength since the repaired slice, get_motif_scores and
+   change_encoding are in /repo: c9f70fe, 56c9986, d2972ec.) *)
 Theorem C13_model_agrees_implies_property :
-  forall c : case, in_domain c = true -> k_kind c = 0 -> model_ok c = true -> spec_ok c = true.
+  forall c : case, in_domain c = true -> model_ok c = true -> spec_ok c = true.
 Proof. exact model_ok_implies_spec_ok. Qed.
 Print Assumptions C13_model_agrees_implies_property.
 
-(* Equal-length sequences handed over as a dense 2-d array: the same link on every route that keeps the row
-   structure (route_handled: everything except get_motif_scores on a 2-d array and get_kmers on an un-encoded
-   2-d array, which at /repo HEAD treat the whole array as one row). *)
-Theorem C13_model_agrees_implies_property_dense_partial :
-  forall c : case, in_domain c = true -> route_handled c -> model_ok c = true -> spec_ok c = true.
-Proof. exact model_ok_implies_spec_ok_routes. Qed.
-Print Assumptions C13_model_agrees_implies_property_dense_partial.
-
-(* ... and those two routes really break row-locality (3 x 4 array ACGT/TTGA/CCCA, width-2 motif, k = 2): windows
+(* history: before those two repairs a dense 2-d input was treated as ONE row by get_motif_scores and (un-encoded) by get_kmers *)
+(* those two routes really broke row-locality (3 x 4 array ACGT/TTGA/CCCA, width-2 motif, k = 2): windows
    T|T, A|C span the row borders; with the rows kept (notes/C13.fix-2.diff, C13.fix-3.diff) the value is the spec's *)
 Theorem C13_dense_routes_refuted :
   let rows := [[0;1;2;3]; [3;3;2;0]; [1;1;1;0]] in
@@ -296,7 +290,7 @@ Example C13_nonvacuous_link :
   let c := {| k_op := 0; k_kind := 0; k_alpha := [65; 67; 71; 84]; k_rows := [[0;1;3]; []; [2]]; k_w := 1; k_k := 1;
               k_pat := []; k_cols := []; k_err := false; k_out := [[0;1;3]; []; [2]];
               k_labels := [[65]; [67]; [84]; [71]] |} in
-  in_domain c = true /\ k_kind c = 0 /\ model_ok c = true /\ spec_ok c = true.
+  in_domain c = true /\ model_ok c = true /\ spec_ok c = true.
 Proof. vm_compute. repeat split; reflexivity. Qed.
 
 Example C13_nonvacuous_long_rows :
